@@ -134,7 +134,7 @@ pub fn exercise(src: &str, c: &Ctx) -> (bool, bool) {
     (built.is_ok(), evaluated)
 }
 
-fn check_program(p: &Program, l: &mut Local) -> Outcome {
+pub fn check_program(p: &Program, l: &mut Local) -> Outcome {
     // the property bounds inputs at 4096 characters
     if p.src.chars().count() > 4096 {
         l.label("skipped: longer than 4096 chars");
